@@ -37,10 +37,23 @@ func init() {
 			return xv != nil && yv != nil && xv.String() == yv.String() && len(a) == len(b)
 		}
 		var reuse []byte // a buffer carried from case to case
+		// results of Marshal handed out in earlier cases (other messages, other sizes), with a copy of what they held:
+		// whoever received them owns them, later calls must leave them alone
+		type held struct {
+			got, want []byte
+			from      string
+		}
+		var earlier []held
 		for i := 0; i < n; i++ {
 			ti := types[i%len(types)]
 			cr := r.fork()
 			v := u.genMsgCapped(cr, ti, genOpts{depth: 3, unknownOK: true})
+			if i%7 == 3 {
+				// results of a few KiB up to beyond 64 KiB (size classes a pooled or recycled scratch buffer would treat differently)
+				if hv := u.hugeValue(ti, []int{700, 3000, 4090, 4100, 5000, 9000, 33000, 70000}[cr.intn(8)], cr.bool()); hv != nil {
+					v = hv
+				}
+			}
 			m, err := u.build(ti, v, buildOpts{})
 			if err != nil {
 				continue
@@ -94,6 +107,16 @@ func init() {
 				if !bytes.Equal(base, keep) {
 					bad = append(bad, "earlier Marshal result changed by later calls")
 				}
+				for _, h := range earlier {
+					if !bytes.Equal(h.got, h.want) {
+						bad = append(bad, fmt.Sprintf("the %d bytes Marshal returned for an earlier message (%s) were changed by the calls for this one", len(h.want), h.from))
+						copy(h.got, h.want)
+					}
+				}
+				if len(earlier) >= 6 {
+					earlier = earlier[1:]
+				}
+				earlier = append(earlier, held{got: base, want: keep, from: ti.Key})
 			}()
 			after, _ := u.read(ti, m)
 			if after == nil || after.String() != normKeep(v, after) {
